@@ -131,14 +131,30 @@ def _value_array(shape, v, dtype):
     ramp = (np.arange(rows * cols).reshape(rows, cols) % 7).astype(float)
     dt = np.dtype(dtype)
     if dt.kind == "u":
-        a = (int(v) + (ramp.astype(np.uint64) % 3)).astype(np.uint64)
-        info = np.iinfo(dt)
-        a = np.minimum(a, np.uint64(info.max)) if int(v) + 2 > info.max else a
+        a = np.full((rows, cols), int(v), dtype=np.uint64)
+        sub = ramp.astype(np.uint64) % np.uint64(3)
+        a = a - sub if int(v) >= 2 else a + sub  # v, v-1, v-2: never leaves the dtype's range
         return a.astype(dt)
     return (float(v) + ramp * 0.25).astype(dt)
 
 
-def writer(detector, plan=None, tag=None):
+def scene_source(v):
+    import xarray as xr
+
+    return xr.Dataset(
+        {"x": ("ref", [float(v)]), "y": ("ref", [1.0]), "weight": ("ref", [2.0]),
+         "flux": (("ref", "wavelength"), np.full((1, 2), float(v)))},
+        coords={"ref": [0], "wavelength": [500.0, 600.0]},
+    )
+
+
+def data_node(v, i):
+    import xarray as xr
+
+    return xr.DataTree(xr.Dataset({"v": ("k", np.array([float(v), float(i)]))}))
+
+
+def writer(detector, plan=None, tag=None, snap=False):
     """Write per-step planned values into chosen buckets.
 
     plan: {bucket: {"dtype": str, "values": [v_step0, v_step1, ...] (None = do not write)}}
@@ -148,6 +164,16 @@ def writer(detector, plan=None, tag=None):
 
     i = int(detector.pipeline_count)
     shape = detector.geometry.shape
+    if snap:
+        SNAPS.append({"where": f"pre:{tag}", "step": i, "buckets": bucket_state(detector)})
+    _write(detector, plan, tag, i, shape)
+    if snap:
+        SNAPS.append({"where": f"post:{tag}", "step": i, "buckets": bucket_state(detector)})
+
+
+def _write(detector, plan, tag, i, shape):
+    import xarray as xr
+
     for bucket, spec in (plan or {}).items():
         vals = spec["values"]
         v = vals[i % len(vals)] if vals else None
@@ -182,14 +208,10 @@ def writer(detector, plan=None, tag=None):
         elif bucket == "pixel_add":
             detector.pixel.array = detector.pixel.array + _value_array(shape, v, dt)
         elif bucket == "scene":
-            ds = xr.Dataset(
-                {"x": ("ref", [float(v)]), "y": ("ref", [1.0]), "weight": ("ref", [2.0]),
-                 "flux": (("ref", "wavelength"), np.full((1, 2), float(v)))},
-                coords={"ref": [0], "wavelength": [500.0, 600.0]},
-            )
+            ds = scene_source(v)
             detector.scene.add_source(ds)
         elif bucket == "data":
-            detector.data[f"/probe/{tag or 'w'}"] = xr.DataTree(xr.Dataset({"v": ("k", np.array([float(v), float(i)]))}))
+            detector.data[f"/probe/{tag or 'w'}"] = data_node(v, i)
         else:
             raise ValueError(f"unknown bucket {bucket}")
 
